@@ -91,6 +91,13 @@ var c19Tricky = []string{
 	"xn--/a/b/c", "a.b/c/d/e", "1.2.3.4/a/b/c", "[::1]/a/b/c", "a..b/c/d/e", ".a.b/c/d/e", "a.b:99999999999/c/d/e", "a.b:/c/d/e", "a.b:-1/c/d/e", "‮.example.com/a/b/c", "example.com:65536/a/b/c",
 }
 
+func init() {
+	// hostnames that the registry-address library accepts for comparison but cannot convert for display
+	c19Tricky = append(c19Tricky,
+		strings.Repeat("k", 64)+"テ.example.com/a/b/c", strings.Repeat("k", 2000)+"テ0.テ0/0/0/0", strings.Repeat("テ", 64)+".example.com/a/b/c@1.0.0",
+		strings.Repeat("a", 64)+".example.com/a/b/c", strings.Repeat("a.", 130)+"com/a/b/c", "xn--"+strings.Repeat("a", 60)+".com/a/b/c", "。/0/0/0", "a.\ufeff.com/ns/n/s")
+}
+
 func c19String(env *fw.Env, idx int) string {
 	if idx < len(c19Tricky) {
 		return c19Tricky[idx]
